@@ -13,6 +13,8 @@ pub mod stubs;
 #[cfg(kani)]
 pub mod util;
 #[cfg(kani)]
+pub mod alloc_track;
+#[cfg(kani)]
 pub mod models;
 #[cfg(kani)]
 pub mod gen;
